@@ -7,42 +7,75 @@
  *   -t/-st/-xt/-xst <group>.<name>                          the same for group and name together
  *   "TEST(<group>, <name>)" "IGNORE_TEST(<group>, <name>)"  group and name exactly match
  *   -o{normal|eclipse|junit|teamcity}    -k <packageName>
- * Values are given attached to the option or as the next argument. */
+ * Values are given attached to the option or as the next argument.
+ *
+ * DECOMPOSITION (measured: the whole parser on one symbolic 2-character value does not finish - as soon as one byte of
+ * an argument is symbolic the copy of the argument has a symbolic length, every byte of it becomes conditional and the
+ * symbolic executor explores all ~25 option handlers for every argument):
+ *   group 'dispatch'  parse() with the option handlers replaced by RECORDING stubs (solver world only): for ALL first
+ *                     arguments of up to 5 arbitrary bytes (and a second argument of up to 3) the handler chosen is the one the
+ *                     reference table names, flags are set exactly, anything else is rejected; the chain itself is safe;
+ *   group 'cl'        every handler called directly on ALL argument bytes (safety) with the documented meaning checked
+ *                     for the documented shapes (value attached / separated), plus the kernels getParameterField,
+ *                     TEST( slicing, group.name splitting, TestFilter::match, and end-to-end runs of the whole parser
+ *                     on concrete representative values that tie the two halves together.
+ * Shape of every harness: argc and every POINTER handed to the parser are concrete at each call site (attached / separated
+ * forms are two call sites); only string CONTENTS are symbolic.  Heap: see zheap.h. */
+#ifndef ENV_MALLOC_CAP
+#define ENV_MALLOC_CAP 64
+#endif
+#define ENV_CUSTOM_MALLOC
+#define ENV_CUSTOM_NEW
 #include "env.c"
+#include "zheap.h"
 #include "translated.h"
 
-/* ---------------------------------------------------------------- textbook helpers */
-static uint64_t t_len(const uint8_t* s) { uint64_t n = 0; while (s[n]) n++; return n; }
-static int t_eq(const uint8_t* a, const uint8_t* b) { uint64_t i = 0; while (a[i] && a[i] == b[i]) i++; return a[i] == b[i]; }
+/* ---------------------------------------------------------------- textbook helpers (every loop has a constant bound TB) */
+#define TB 20
+static uint64_t t_len(const uint8_t* s) { uint64_t n = 0; while (n < TB && s[n]) n++; return n; }
+static int t_eq(const uint8_t* a, const uint8_t* b) { for (uint64_t i = 0; i < TB; i++) { if (a[i] != b[i]) return 0; if (!a[i]) return 1; } return 0; }
+static int t_starts(const uint8_t* a, const char* lit) { for (uint64_t i = 0; i < TB; i++) { if (!lit[i]) return 1; if (a[i] != (uint8_t)lit[i]) return 0; } return 1; }
+static int t_is(const uint8_t* a, const char* lit) { return t_eq(a, (const uint8_t*)lit); }
 static int t_contains(const uint8_t* hay, const uint8_t* nee) {
   uint64_t lh = t_len(hay), ln = t_len(nee);
-  for (uint64_t i = 0; i + ln <= lh; i++) { int ok = 1; for (uint64_t j = 0; j < ln; j++) if (hay[i + j] != nee[j]) ok = 0; if (ok) return 1; }
+  for (uint64_t i = 0; i < 8; i++) { if (i + ln > lh) break; int ok = 1; for (uint64_t j = 0; j < 8; j++) { if (j >= ln) break; if (hay[i + j] != nee[j]) ok = 0; } if (ok) return 1; }
   return 0;
 }
 static int is_ident(uint8_t c) { return (c >= 'a' && c <= 'z') || (c >= 'A' && c <= 'Z') || (c >= '0' && c <= '9') || c == '_'; }
 static int is_digit(uint8_t c) { return c >= '0' && c <= '9'; }
-static void cat(uint8_t* dst, const uint8_t* src) { uint64_t n = t_len(dst), i = 0; for (; src[i]; i++) dst[n + i] = src[i]; dst[n + i] = 0; }
+static int ident_text(const uint8_t* s) { if (!s[0]) return 0; for (uint64_t i = 0; i < TB; i++) { if (!s[i]) return 1; if (!is_ident(s[i])) return 0; } return 0; }
+static int digit_text(const uint8_t* s) { if (!s[0]) return 0; for (uint64_t i = 0; i < TB; i++) { if (!s[i]) return 1; if (!is_digit(s[i])) return 0; } return 0; }
+static uint64_t decimal(const uint8_t* s) { uint64_t v = 0; for (uint64_t i = 0; i < 6; i++) { if (!s[i]) break; v = v * 10 + (uint64_t)(s[i] - '0'); } return v; }
+/* append to a zero-initialised buffer of TB+1 bytes */
+static void cat(uint8_t* dst, const uint8_t* src) { uint64_t n = t_len(dst); for (uint64_t i = 0; i < TB; i++) { if (!src[i] || n + i >= TB) break; dst[n + i] = src[i]; } }
 static void catlit(uint8_t* dst, const char* src) { cat(dst, (const uint8_t*)src); }
+#define TEXT(name) uint8_t name[TB + 1] = {0}
 
 /* ---------------------------------------------------------------- the expected configuration */
 enum { F_HELP, F_VERBOSE, F_VERYVERBOSE, F_COLOR, F_SEPARATE, F_REVERSE, F_LISTGROUPS, F_LISTNAMES, F_LISTLOCATIONS, F_RUNIGNORED,
        F_CRASH, F_RETHROW, F_SHUFFLE, F_JUNIT, F_TEAMCITY, F_ECLIPSE, NFLAGS };
 #define STRICT 1u
 #define INVERT 2u
-struct fexp { uint8_t text[8]; uint32_t bits; };
+struct fexp { uint8_t text[TB + 1]; uint32_t bits; };
 struct expect {
   uint32_t flag[NFLAGS]; uint64_t repeat; uint32_t seed_known; uint64_t seed;
-  uint32_t nf[2]; struct fexp f[2][3];            /* [0] group filters, [1] name filters; most recent option first */
-  uint8_t package[8];
+  uint32_t nf[2]; struct fexp f[2][2];            /* [0] group filters, [1] name filters; most recent option first */
+  uint8_t package[TB + 1];
 };
+static const struct expect zero_expect;
 static void defaults(struct expect* e) {
-  for (int i = 0; i < NFLAGS; i++) e->flag[i] = 0;
+  *e = zero_expect;
   e->flag[F_RETHROW] = 1; e->flag[F_ECLIPSE] = 1;   /* unexpected exceptions are rethrown unless -e/-ci; no output files unless asked */
-  e->repeat = 1; e->seed_known = 0; e->seed = 0; e->nf[0] = e->nf[1] = 0; e->package[0] = 0;
+  e->repeat = 1;
 }
 static void add_filter(struct expect* e, int which, const uint8_t* text, uint32_t bits) {
-  for (int i = 2; i > 0; i--) e->f[which][i] = e->f[which][i - 1];
-  e->f[which][0].text[0] = 0; cat(e->f[which][0].text, text); e->f[which][0].bits = bits; e->nf[which]++;
+  e->f[which][1] = e->f[which][0];
+  e->f[which][0] = zero_expect.f[0][0]; cat(e->f[which][0].text, text); e->f[which][0].bits = bits; e->nf[which]++;
+}
+static int same_text(uint64_t len, int which, int i, const uint8_t* want) {   /* which < 0: package name */
+  if (len != t_len(want)) return 0;
+  for (uint64_t k = 0; k < 11; k++) { if (k >= len) break; if ((which < 0 ? h_package_char(k) : h_filter_char(which, i, k)) != want[k]) return 0; }
+  return 1;
 }
 static void compare(const struct expect* e) {
   int flags_ok = 1;
@@ -52,279 +85,307 @@ static void compare(const struct expect* e) {
   if (e->flag[F_SHUFFLE]) { if (e->seed_known) CHECK(h_seed() == e->seed, "shuffle seed is the given one"); else CHECK(h_seed() != 0, "shuffle seed: some seed greater than 0"); }
   for (int w = 0; w < 2; w++) {
     CHECK(h_nfilters(w) == e->nf[w], "number of group / name filters");
-    for (uint32_t i = 0; i < e->nf[w] && i < 3; i++) {
-      int same = h_filter_len(w, i) == t_len(e->f[w][i].text);
-      for (uint64_t k = 0; same && k < t_len(e->f[w][i].text); k++) if (h_filter_char(w, i, k) != e->f[w][i].text[k]) same = 0;
-      CHECK(same, "filter text is the given group / name");
+    for (uint32_t i = 0; i < 2; i++) if (i < e->nf[w]) {
+      CHECK(same_text(h_filter_len(w, i), w, i, e->f[w][i].text), "filter text is the given group / name");
       CHECK(h_filter_bits(w, i) == e->f[w][i].bits, "filter kind: contains or exact (s), run-only or exclude (x)");
     }
   }
-  int psame = h_package_len() == t_len(e->package);
-  for (uint64_t k = 0; psame && k < t_len(e->package); k++) if (h_package_char(k) != e->package[k]) psame = 0;
-  CHECK(psame, "package name is the given one");
+  CHECK(same_text(h_package_len(), -1, 0, e->package), "package name is the given one");
 }
 
-/* ---------------------------------------------------------------- H1: safety on arbitrary bytes */
-#ifndef A1MAX
-#define A1MAX 3
+/* ================================================================ group 'dispatch': which handler does parse() choose?
+ * In the solver world of this group the handlers are the recording stubs below; the real build runs the real handlers
+ * (then only safety and the accept/reject contract are observed). */
+enum { H_NONE = -1, H_REPEAT, H_SHUFFLE, H_G, H_SG, H_XG, H_XSG, H_N, H_SN, H_XN, H_XSN, H_T, H_ST, H_XT, H_XST, H_TEST, H_IGNORE_TEST, H_OUTPUT, H_PACKAGE, NHANDLERS };
+#if defined(DISPATCH_STUBBED) && defined(LL2C_TRANSLATED)
+#define DISPATCH_IS_STUB 1
+uint8_t* _ZNK12SimpleString12asCharStringEv(uint8_t*);
+static int32_t seen_handler[2], seen_index[2]; static uint32_t nseen;
+static uint8_t stub_result = 1;     /* what the bool handlers answer */
+static void seen(int h, uint8_t* idx) { if (nseen < 2) { seen_handler[nseen] = h; seen_index[nseen] = *(int32_t*)idx; } nseen++; }
+void _ZN20CommandLineArguments14setRepeatCountEiPKPKcRi(uint8_t* t, uint32_t ac, uint8_t* av, uint8_t* i) { (void)t; (void)ac; (void)av; seen(H_REPEAT, i); }
+uint8_t _ZN20CommandLineArguments10setShuffleEiPKPKcRi(uint8_t* t, uint32_t ac, uint8_t* av, uint8_t* i) { (void)t; (void)ac; (void)av; seen(H_SHUFFLE, i); return stub_result; }
+void _ZN20CommandLineArguments14addGroupFilterEiPKPKcRi(uint8_t* t, uint32_t ac, uint8_t* av, uint8_t* i) { (void)t; (void)ac; (void)av; seen(H_G, i); }
+void _ZN20CommandLineArguments20addStrictGroupFilterEiPKPKcRi(uint8_t* t, uint32_t ac, uint8_t* av, uint8_t* i) { (void)t; (void)ac; (void)av; seen(H_SG, i); }
+void _ZN20CommandLineArguments21addExcludeGroupFilterEiPKPKcRi(uint8_t* t, uint32_t ac, uint8_t* av, uint8_t* i) { (void)t; (void)ac; (void)av; seen(H_XG, i); }
+void _ZN20CommandLineArguments27addExcludeStrictGroupFilterEiPKPKcRi(uint8_t* t, uint32_t ac, uint8_t* av, uint8_t* i) { (void)t; (void)ac; (void)av; seen(H_XSG, i); }
+void _ZN20CommandLineArguments13addNameFilterEiPKPKcRi(uint8_t* t, uint32_t ac, uint8_t* av, uint8_t* i) { (void)t; (void)ac; (void)av; seen(H_N, i); }
+void _ZN20CommandLineArguments19addStrictNameFilterEiPKPKcRi(uint8_t* t, uint32_t ac, uint8_t* av, uint8_t* i) { (void)t; (void)ac; (void)av; seen(H_SN, i); }
+void _ZN20CommandLineArguments20addExcludeNameFilterEiPKPKcRi(uint8_t* t, uint32_t ac, uint8_t* av, uint8_t* i) { (void)t; (void)ac; (void)av; seen(H_XN, i); }
+void _ZN20CommandLineArguments26addExcludeStrictNameFilterEiPKPKcRi(uint8_t* t, uint32_t ac, uint8_t* av, uint8_t* i) { (void)t; (void)ac; (void)av; seen(H_XSN, i); }
+uint8_t _ZN20CommandLineArguments21addGroupDotNameFilterEiPKPKcRiRK12SimpleStringbb(uint8_t* t, uint32_t ac, uint8_t* av, uint8_t* i, uint8_t* name, uint8_t strict, uint8_t exclude) {
+  (void)t; (void)ac; (void)av;
+  const uint8_t* n = _ZNK12SimpleString12asCharStringEv(name);
+  int h = (strict ? (exclude ? H_XST : H_ST) : (exclude ? H_XT : H_T));
+  /* the option name handed over must be the one of that kind (it tells the handler where the value starts) */
+  const char* want = h == H_T ? "-t" : h == H_ST ? "-st" : h == H_XT ? "-xt" : "-xst";
+  int ok = 1; for (int k = 0; k < 5; k++) { if (n[k] != (uint8_t)want[k]) ok = 0; if (!want[k]) break; }
+  seen(ok ? h : H_NONE, i); return stub_result;
+}
+void _ZN20CommandLineArguments32addTestToRunBasedOnVerboseOutputEiPKPKcRiS1_(uint8_t* t, uint32_t ac, uint8_t* av, uint8_t* i, uint8_t* name) { (void)t; (void)ac; (void)av; seen(name[0] == 'T' ? H_TEST : name[0] == 'I' ? H_IGNORE_TEST : H_NONE, i); }
+uint8_t _ZN20CommandLineArguments13setOutputTypeEiPKPKcRi(uint8_t* t, uint32_t ac, uint8_t* av, uint8_t* i) { (void)t; (void)ac; (void)av; seen(H_OUTPUT, i); return stub_result; }
+void _ZN20CommandLineArguments14setPackageNameEiPKPKcRi(uint8_t* t, uint32_t ac, uint8_t* av, uint8_t* i) { (void)t; (void)ac; (void)av; seen(H_PACKAGE, i); }
+#else
+#define DISPATCH_IS_STUB 0
+static int32_t seen_handler[2], seen_index[2]; static uint32_t nseen; static uint8_t stub_result = 1;
 #endif
-#ifndef A2MAX
-#define A2MAX 2
+/* reference: what one argument means.  Flags are whole arguments; a valued option is recognised by its name at the start of
+ * the argument, the longest documented name winning (-sg is not -s with the value "g").  Returns the flag (>= 0) in *flag,
+ * the handler in *handler, or neither (reject). */
+static void ref_dispatch(const uint8_t* a, int* flag, int* handler, int* reject) {
+  static const char* const fopt[] = { "-h", "-v", "-vv", "-c", "-p", "-b", "-lg", "-ln", "-ll", "-ri", "-f", "-e", "-ci" };
+  static const int fflag[] = { F_HELP, F_VERBOSE, F_VERYVERBOSE, F_COLOR, F_SEPARATE, F_REVERSE, F_LISTGROUPS, F_LISTNAMES, F_LISTLOCATIONS, F_RUNIGNORED, F_CRASH, F_RETHROW, F_RETHROW };
+  static const char* const vopt[] = { "-r", "-s", "-g", "-sg", "-xg", "-xsg", "-n", "-sn", "-xn", "-xsn", "-t", "-st", "-xt", "-xst", "TEST(", "IGNORE_TEST(", "-o", "-k" };
+  *flag = -1; *handler = H_NONE; *reject = 0;
+  for (int k = 0; k < 13; k++) if (t_is(a, fopt[k])) { *flag = fflag[k]; if (k == 0) *reject = 1; return; }
+  uint64_t best = 0;
+  for (int k = 0; k < NHANDLERS; k++) { uint64_t l = t_len((const uint8_t*)vopt[k]); if (t_starts(a, vopt[k]) && l > best) { best = l; *handler = k; } }
+  if (*handler == H_NONE) *reject = 1;             /* unknown option - includes "-p<something>", which only a plugin could accept */
+}
+#ifndef D1MAX
+#define D1MAX 5
 #endif
-#ifndef ACMAX
-#define ACMAX 3
+#ifndef D2MAX
+#define D2MAX 3
 #endif
-HARNESS(harness_safety) {
+/* one or two arbitrary arguments through the dispatch chain */
+static void body_harness_dispatch(const int AC) {
   h_init();
-  IN_U32(ac); IN_ARR_U8(a1, A1MAX + 1); IN_ARR_U8(a2, A2MAX + 1); IN_U64(now);
-  ASSUME(ac <= ACMAX); a1[A1MAX] = 0; a2[A2MAX] = 0;
-  env_now_millis = now;
-  uint32_t ok = h_parse(ac, a1, a2, 0, 0, 0);
-  OBSERVE(ok); OBSERVE(h_flag(F_VERBOSE)); OBSERVE(h_repeat()); OBSERVE(h_nfilters(0)); OBSERVE(h_nfilters(1));
-  CHECK(ok == 0 || ok == 1, "the vector is rejected or a configuration is produced");
-  CHECK(!h_flag(F_HELP) || !ok, "asking for help rejects the vector (no test runs)");
-  if (ac <= 1) { struct expect e; defaults(&e); CHECK(ok == 1, "no arguments: accepted"); compare(&e); }
-  WITNESS("end");
-}
-/* the same with a recognisable first argument: its two leading bytes are an option's, the rest arbitrary */
-static void body_harness_safety_prefixed(const int KIND) {
-  static const char* const prefix[] = { "-r", "-s", "-g", "-t", "-sg", "-xg", "-xsg", "-n", "-sn", "-xn", "-xsn", "-st", "-xt", "-xst", "-o", "-k", "-p", "TEST(", "IGNORE_TEST(" };
-  h_init();
-  IN_U32(ac); IN_ARR_U8(tail, A1MAX + 1); IN_ARR_U8(a2, A2MAX + 1); IN_U64(now);
-  ASSUME(ac <= ACMAX); tail[A1MAX] = 0; a2[A2MAX] = 0;
-  env_now_millis = now;
-  uint8_t a1[24]; a1[0] = 0; catlit(a1, prefix[KIND]); cat(a1, tail);
-  uint32_t ok = h_parse(ac, a1, a2, 0, 0, 0);
-  OBSERVE(ok); OBSERVE(h_repeat()); OBSERVE(h_nfilters(0)); OBSERVE(h_nfilters(1));
-  CHECK(ok == 0 || ok == 1, "the vector is rejected or a configuration is produced");
-  CHECK(!h_flag(F_HELP) || !ok, "asking for help rejects the vector (no test runs)");
-  WITNESS("end");
-}
-
-/* ---------------------------------------------------------------- H3: meaning of every documented option */
-#define IDENT(v) IN_ARR_U8(v, 3); v[2] = 0; ASSUME(is_ident(v[0]) && (v[1] == 0 || is_ident(v[1])))
-#define PROBE() IN_ARR_U8(pg, 3); IN_ARR_U8(pn, 3); pg[2] = 0; pn[2] = 0
-
-/* options without a value */
-static void body_harness_flag(const int KIND) {
-  static const char* const opt[] = { "-h", "-v", "-vv", "-c", "-p", "-b", "-lg", "-ln", "-ll", "-ri", "-f", "-e", "-ci" };
-  static const int flag[] = { F_HELP, F_VERBOSE, F_VERYVERBOSE, F_COLOR, F_SEPARATE, F_REVERSE, F_LISTGROUPS, F_LISTNAMES, F_LISTLOCATIONS, F_RUNIGNORED, F_CRASH, F_RETHROW, F_RETHROW };
-  h_init(); PROBE();
-  struct expect e; defaults(&e);
-  e.flag[flag[KIND]] = (flag[KIND] == F_RETHROW) ? 0 : 1;
-  uint32_t ok = h_parse(2, (uint8_t*)opt[KIND], 0, 0, pg, pn);
+  IN_ARR_U8(a1, D1MAX + 1); IN_ARR_U8(a2, D2MAX + 1); IN_U8(answer);
+  a1[D1MAX] = 0; a2[D2MAX] = 0;
+  stub_result = answer & 1; nseen = 0;
+  uint32_t ok = h_parse(AC, a1, a2, 0, 0, 0);
   OBSERVE(ok);
-  if (KIND == 0) { CHECK(ok == 0 && h_flag(F_HELP), "-h: help is wanted and the vector rejected (no test runs)"); }
-  else { CHECK(ok == 1, "documented option accepted"); compare(&e); CHECK(h_probe_runs() != 0, "no filter option: every test is selected"); }
+  CHECK(ok == 0 || ok == 1, "the vector is rejected or a configuration is produced");
+  CHECK(!h_flag(F_HELP) || !ok, "asking for help rejects the vector (no test runs)");
+  if (DISPATCH_IS_STUB) {
+    /* walk the arguments with the reference: the stubs take no value from the next argument, so every argument is an option */
+    struct expect e; defaults(&e);
+    int rejected = 0; uint32_t calls = 0;
+    for (int i = 1; i < AC; i++) {
+      if (rejected) break;
+      int flag, handler, reject; ref_dispatch(i == 1 ? a1 : a2, &flag, &handler, &reject);
+      if (flag >= 0) e.flag[flag] = (flag == F_RETHROW) ? 0 : 1;
+      if (handler != H_NONE) {
+        if (calls < 2) { CHECK(nseen > calls && seen_handler[calls] == handler, "the handler of the option named at the start of the argument is chosen (longest name wins)");
+                         CHECK(nseen > calls && seen_index[calls] == i, "the handler is given the index of that argument"); }
+        calls++;
+        if ((handler == H_SHUFFLE || handler == H_OUTPUT || (handler >= H_T && handler <= H_XST)) && !stub_result) reject = 1;   /* the handler said no */
+      }
+      if (reject) rejected = 1;
+    }
+    CHECK(nseen == calls, "no other handler runs");
+    CHECK((ok == 0) == (rejected != 0), "rejected iff help is wanted, an argument is no documented option, or a handler rejects its value");
+    if (!rejected) compare(&e);
+    else { int flags_ok = 1; for (int i = 0; i < NFLAGS; i++) if (i != F_HELP && i != F_RETHROW && i != F_ECLIPSE && h_flag(i) && !e.flag[i]) flags_ok = 0; CHECK(flags_ok, "a rejected vector has set no flag that was not given"); }
+  }
+  WITNESS("end");
+}
+
+/* the same with a first argument that begins like a documented name: all but the last character of the name, then two arbitrary bytes
+ * (hits the name, its near misses, and - for the long TEST( / IGNORE_TEST( names - arguments the 5-byte sweep cannot reach) */
+static void body_harness_dispatch_near(const int K) {
+  static const char* const vopt[] = { "-r", "-s", "-g", "-sg", "-xg", "-xsg", "-n", "-sn", "-xn", "-xsn", "-t", "-st", "-xt", "-xst", "TEST(", "IGNORE_TEST(", "-o", "-k" };
+  h_init();
+  IN_ARR_U8(two, 3); IN_U8(answer); two[2] = 0;
+  stub_result = answer & 1; nseen = 0;
+  TEXT(a1); catlit(a1, vopt[K]); a1[t_len(a1) - 1] = 0; cat(a1, two);
+  uint32_t ok = h_parse(2, a1, 0, 0, 0, 0);
+  OBSERVE(ok);
+  CHECK(ok == 0 || ok == 1, "the vector is rejected or a configuration is produced");
+  if (DISPATCH_IS_STUB) {
+    struct expect e; defaults(&e);
+    int flag, handler, reject; ref_dispatch(a1, &flag, &handler, &reject);
+    if (flag >= 0) e.flag[flag] = (flag == F_RETHROW) ? 0 : 1;
+    if (handler != H_NONE) {
+      CHECK(nseen == 1 && seen_handler[0] == handler && seen_index[0] == 1, "the handler of the option named at the start of the argument is chosen (longest name wins)");
+      if ((handler == H_SHUFFLE || handler == H_OUTPUT || (handler >= H_T && handler <= H_XST)) && !stub_result) reject = 1;
+    } else CHECK(nseen == 0, "no handler runs");
+    CHECK((ok == 0) == (reject != 0), "rejected iff help is wanted, the argument is no documented option, or the handler rejects its value");
+    if (!reject) compare(&e);
+  }
+  WITNESS("end");
+}
+
+/* ================================================================ group 'cl' */
+/* ---------------------------------------------------------------- the handlers, called directly, on arbitrary bytes */
+#ifndef TAILMAX
+#define TAILMAX 4
+#endif
+#define PROBE() IN_ARR_U8(pg, 3); IN_ARR_U8(pn, 3); pg[2] = 0; pn[2] = 0
+enum { K_REPEAT, K_SHUFFLE, K_G, K_SG, K_XG, K_XSG, K_N, K_SN, K_XN, K_XSN, K_T, K_ST, K_XT, K_XST, K_TEST, K_IGNORE_TEST, K_OUTPUT, K_PACKAGE };
+static const char* const kname[] = { "-r", "-s", "-g", "-sg", "-xg", "-xsg", "-n", "-sn", "-xn", "-xsn", "-t", "-st", "-xt", "-xst", "TEST(", "IGNORE_TEST(", "-o", "-k" };
+/* the value of an option: what follows its name in the argument, else the next argument (consumed), else nothing */
+static const uint8_t* ref_value(const uint8_t* tail, const uint8_t* next, int AC, int* consumed) {
+  *consumed = 0;
+  if (tail[0]) return tail;
+  if (AC == 3) { *consumed = 1; return next; }
+  return (const uint8_t*)"";
+}
+/* filters: -g -sg -xg -xsg -n -sn -xn -xsn */
+static void body_harness_handler_filter(const int KIND, const int AC) {
+  static const uint32_t bits[] = { 0, STRICT, INVERT, STRICT | INVERT };
+  h_init();
+  IN_ARR_U8(tail, TAILMAX + 1); IN_ARR_U8(a2, 3); PROBE();
+  tail[TAILMAX] = 0; a2[2] = 0;
+  TEXT(a1); catlit(a1, kname[KIND]); cat(a1, tail);
+  uint32_t ok = h_handler(KIND, AC, a1, a2, pg, pn);
+  OBSERVE(ok); OBSERVE(h_index()); OBSERVE(h_probe_runs());
+  int consumed; const uint8_t* v = ref_value(tail, a2, AC, &consumed);
+  const int which = (KIND - K_G) / 4; const uint32_t b = bits[(KIND - K_G) % 4];
+  struct expect e; defaults(&e); add_filter(&e, which, v, b);
+  CHECK(h_index() == 1 + consumed, "the next argument is consumed iff the value is not attached");
+  compare(&e);                                                   /* for every value, not only identifier-like ones */
+  const uint8_t* subject = which == 0 ? pg : pn;
+  int matches = (b & STRICT) ? t_eq(subject, v) : t_contains(subject, v);
+  CHECK((h_probe_runs() != 0) == ((b & INVERT) ? !matches : matches), "a test is selected iff its group/name contains (exactly matches with s) the value; excluded instead with x");
   WITNESS("end");
 }
 /* -r[<#>] and -s [<seed>] */
-static void body_harness_number(const int KIND) {    /* 0: -r alone  1: -r<#>  2: -s alone  3: -s<seed> */
+static void body_harness_handler_number(const int KIND, const int AC) {
   h_init();
-  IN_ARR_U8(d, 3); d[2] = 0; IN_BOOL(separated); IN_U64(now);
-  ASSUME(is_digit(d[0]) && (d[1] == 0 || is_digit(d[1])));
+  IN_ARR_U8(tail, TAILMAX + 1); IN_ARR_U8(a2, 3); IN_U64(now);
+  tail[TAILMAX] = 0; a2[2] = 0;
   env_now_millis = now;
-  uint64_t value = d[1] ? (uint64_t)(d[0] - '0') * 10 + (d[1] - '0') : (uint64_t)(d[0] - '0');
+  TEXT(a1); catlit(a1, kname[KIND]); cat(a1, tail);
+  uint32_t ok = h_handler(KIND, AC, a1, a2, 0, 0);
+  OBSERVE(ok); OBSERVE(h_index()); OBSERVE(h_repeat()); OBSERVE(h_seed());
+  CHECK(h_index() == 1 || (h_index() == 2 && AC == 3 && !tail[0]), "at most the next argument is consumed, and only when nothing is attached");
   struct expect e; defaults(&e);
-  uint8_t a1[8]; a1[0] = 0; catlit(a1, KIND < 2 ? "-r" : "-s");
-  uint32_t ac = 2; uint8_t* a2 = 0;
-  if (KIND == 1 || KIND == 3) { if (separated) { ac = 3; a2 = d; } else cat(a1, d); }
-  uint32_t ok = h_parse(ac, a1, a2, 0, 0, 0);
-  OBSERVE(ok); OBSERVE(h_repeat()); OBSERVE(h_seed());
-  switch (KIND) {
-    case 0: e.repeat = 2; CHECK(ok == 1, "-r accepted"); compare(&e); break;                        /* twice if <#> is not specified */
-    case 1: ASSUME(value != 0);                                                                     /* the help text does not say what zero repetitions mean */
-            e.repeat = value; CHECK(ok == 1, "-r<#> accepted"); compare(&e); break;
-    case 2: e.flag[F_SHUFFLE] = 1; CHECK(ok == 1, "-s accepted"); compare(&e); break;               /* seed optional: some seed > 0 */
-    default: if (value == 0) CHECK(ok == 0, "a seed must be greater than 0");
-             else { e.flag[F_SHUFFLE] = 1; e.seed_known = 1; e.seed = value; CHECK(ok == 1, "-s <seed> accepted"); compare(&e); }
-             break;
-  }
-  WITNESS("end");
-}
-/* group / name filters: -g -sg -xg -xsg -n -sn -xn -xsn */
-static void body_harness_filter(const int KIND) {
-  static const char* const opt[] = { "-g", "-sg", "-xg", "-xsg", "-n", "-sn", "-xn", "-xsn" };
-  static const uint32_t bits[] = { 0, STRICT, INVERT, STRICT | INVERT };
-  h_init(); IDENT(v); PROBE(); IN_BOOL(separated);
-  struct expect e; defaults(&e);
-  const int which = KIND / 4; const uint32_t b = bits[KIND % 4];
-  add_filter(&e, which, v, b);
-  uint8_t a1[8]; a1[0] = 0; catlit(a1, opt[KIND]);
-  uint32_t ac = 2; uint8_t* a2 = 0;
-  if (separated) { ac = 3; a2 = v; } else cat(a1, v);
-  uint32_t ok = h_parse(ac, a1, a2, 0, pg, pn);
-  OBSERVE(ok); OBSERVE(h_probe_runs());
-  CHECK(ok == 1, "documented option accepted"); compare(&e);
-  const uint8_t* subject = which == 0 ? pg : pn;
-  int matches = (b & STRICT) ? t_eq(subject, v) : t_contains(subject, v);
-  int runs = (b & INVERT) ? !matches : matches;
-  CHECK((h_probe_runs() != 0) == runs, "a test is selected iff its group/name contains (exactly matches with s) the value; excluded instead with x");
-  WITNESS("end");
-}
-/* -t -st -xt -xst <group>.<name> */
-static void body_harness_dotted(const int KIND) {
-  static const char* const opt[] = { "-t", "-st", "-xt", "-xst" };
-  static const uint32_t bits[] = { 0, STRICT, INVERT, STRICT | INVERT };
-  h_init(); IDENT(g); IDENT(n); PROBE(); IN_BOOL(separated);
-  struct expect e; defaults(&e);
-  const uint32_t b = bits[KIND];
-  add_filter(&e, 0, g, b); add_filter(&e, 1, n, b);
-  uint8_t val[8]; val[0] = 0; cat(val, g); catlit(val, "."); cat(val, n);
-  uint8_t a1[12]; a1[0] = 0; catlit(a1, opt[KIND]);
-  uint32_t ac = 2; uint8_t* a2 = 0;
-  if (separated) { ac = 3; a2 = val; } else cat(a1, val);
-  uint32_t ok = h_parse(ac, a1, a2, 0, pg, pn);
-  OBSERVE(ok); OBSERVE(h_probe_runs());
-  CHECK(ok == 1, "documented option accepted"); compare(&e);
-  int gm = (b & STRICT) ? t_eq(pg, g) : t_contains(pg, g);
-  int nm = (b & STRICT) ? t_eq(pn, n) : t_contains(pn, n);
-#ifdef KF_C12_1
-  if (b & INVERT) ASSUME(gm == nm);   /* open finding: -xt/-xst also exclude tests of which only the group or only the name matches */
-#endif
-  int runs = (b & INVERT) ? !(gm && nm) : (gm && nm);       /* "group AND name contain/match": run only those / exclude those */
-  CHECK((h_probe_runs() != 0) == runs, "a test is selected iff its group and name both contain (exactly match) the values; with x exactly those tests are excluded");
-  WITNESS("end");
-}
-/* "TEST(group, name)" / "IGNORE_TEST(group, name)" as printed by -v */
-static void body_harness_testform(const int KIND) {
-  h_init(); IDENT(g); IDENT(n); PROBE();
-  struct expect e; defaults(&e);
-  add_filter(&e, 0, g, STRICT); add_filter(&e, 1, n, STRICT);
-  uint8_t a1[24]; a1[0] = 0; catlit(a1, KIND ? "IGNORE_TEST(" : "TEST("); cat(a1, g); catlit(a1, ", "); cat(a1, n); catlit(a1, ")");
-  uint32_t ok = h_parse(2, a1, 0, 0, pg, pn);
-  OBSERVE(ok); OBSERVE(h_probe_runs());
-  CHECK(ok == 1, "documented form accepted"); compare(&e);
-  CHECK((h_probe_runs() != 0) == (t_eq(pg, g) && t_eq(pn, n)), "exactly the named test is selected");
-  WITNESS("end");
-}
-/* -o{normal|eclipse|junit|teamcity} and -k <packageName> */
-static void body_harness_output(const int KIND) {   /* 0..3: -o word, 4: -k */
-  static const char* const word[] = { "normal", "eclipse", "junit", "teamcity" };
-  h_init(); IDENT(v); IN_BOOL(separated);
-  struct expect e; defaults(&e);
-  uint8_t val[12]; val[0] = 0;
-  if (KIND < 4) { catlit(val, word[KIND]); e.flag[F_ECLIPSE] = KIND < 2; e.flag[F_JUNIT] = KIND == 2; e.flag[F_TEAMCITY] = KIND == 3; }
-  else { cat(val, v); cat(e.package, v); }
-  uint8_t a1[16]; a1[0] = 0; catlit(a1, KIND < 4 ? "-o" : "-k");
-  uint32_t ac = 2; uint8_t* a2 = 0;
-  if (separated) { ac = 3; a2 = val; } else cat(a1, val);
-  uint32_t ok = h_parse(ac, a1, a2, 0, 0, 0);
-  OBSERVE(ok);
-  CHECK(ok == 1, "documented option accepted"); compare(&e);
-  WITNESS("end");
-}
-/* two options in either order: a valued option (its value attached or separated) and a flag */
-static void body_harness_pair(const int KIND) {      /* KIND: 0 -g  1 -xsn  2 -r<#>  3 -s<seed>  4 -k  5 -r alone  6 -s alone */
-  static const char* const fopt[] = { "-v", "-c", "-b", "-ri", "-p", "-vv" };
-  static const int fflag[] = { F_VERBOSE, F_COLOR, F_REVERSE, F_RUNIGNORED, F_SEPARATE, F_VERYVERBOSE };
-  h_init(); IDENT(v); IN_BOOL(separated); IN_BOOL(flagFirst); IN_U32(fk); IN_U64(now);
-  ASSUME(fk < 6);
-  env_now_millis = now;
-  struct expect e; defaults(&e);
-  e.flag[fflag[fk]] = 1;
-  uint8_t o[8]; o[0] = 0; uint8_t val[4]; val[0] = 0; int valued = 1;
-  switch (KIND) {
-    case 0: catlit(o, "-g"); cat(val, v); add_filter(&e, 0, v, 0); break;
-    case 1: catlit(o, "-xsn"); cat(val, v); add_filter(&e, 1, v, STRICT | INVERT); break;
-    case 2: catlit(o, "-r"); ASSUME(is_digit(v[0]) && v[0] != '0' && v[1] == 0); cat(val, v); e.repeat = (uint64_t)(v[0] - '0'); break;
-    case 3: catlit(o, "-s"); ASSUME(is_digit(v[0]) && v[0] != '0' && v[1] == 0); cat(val, v); e.flag[F_SHUFFLE] = 1; e.seed_known = 1; e.seed = (uint64_t)(v[0] - '0'); break;
-    case 4: catlit(o, "-k"); cat(val, v); cat(e.package, v); break;
-    case 5: catlit(o, "-r"); valued = 0; e.repeat = 2; break;
-    default: catlit(o, "-s"); valued = 0; e.flag[F_SHUFFLE] = 1; break;
-  }
-  uint8_t* av[3]; uint32_t n = 0;
-  if (flagFirst) av[n++] = (uint8_t*)fopt[fk];
-  if (valued && !separated) cat(o, val);
-  av[n++] = o;
-  if (valued && separated) av[n++] = val;
-  if (!flagFirst) av[n++] = (uint8_t*)fopt[fk];
-  uint32_t ok = h_parse(n + 1, av[0], av[1], n > 2 ? av[2] : 0, 0, 0);
-  OBSERVE(ok);
-  CHECK(ok == 1, "two documented options accepted in either order"); compare(&e);
-  WITNESS("end");
-}
-
-/* ---------------------------------------------------------------- H2: kernels at larger bounds */
-#ifndef KMAX
-#define KMAX 6
-#endif
-/* getParameterField: the value is what follows the option name in the same argument, else the next argument, else nothing */
-HARNESS(harness_param_field) {
-  static const char* const names[] = { "-g", "-sg", "-xsg", "TEST(", "IGNORE_TEST(" };
-  h_init();
-  IN_ARR_U8(a1, KMAX + 1); IN_ARR_U8(a2, 3); IN_U32(ac); IN_U32(nk);
-  a1[KMAX] = 0; a2[2] = 0; ASSUME(ac >= 2 && ac <= 3 && nk < 5);
-  const uint8_t* name = (const uint8_t*)names[nk];
-  uint32_t idx = h_param_field(ac, a1, a2, (uint8_t*)name);
-  OBSERVE(idx); OBSERVE(h_field_len());
-  uint64_t la = t_len(a1), ln = t_len(name);
-  const uint8_t* want; uint32_t widx = 1;
-  if (la > ln) want = a1 + ln; else if (ac == 3) { want = a2; widx = 2; } else want = (const uint8_t*)"";
-  CHECK(idx == widx, "the next argument is consumed only when the value is not attached");
-  int same = h_field_len() == t_len(want);
-  for (uint64_t k = 0; same && k < t_len(want); k++) if (h_field_char(k) != want[k]) same = 0;
-  CHECK(same, "the value is the rest of the argument, else the next argument, else empty");
-  WITNESS("end");
-}
-/* TEST(...) slicing on arbitrary bytes; for the documented shape the group and name come out */
-HARNESS(harness_test_slicing) {
-  h_init();
-  IN_ARR_U8(rest, KMAX + 1); IN_BOOL(ignore); rest[KMAX] = 0;
-  uint8_t a1[32]; a1[0] = 0; catlit(a1, ignore ? "IGNORE_TEST(" : "TEST("); cat(a1, rest);
-  h_test_form(a1, ignore);
-  OBSERVE(h_nfilters(0)); OBSERVE(h_filter_len(0, 0)); OBSERVE(h_filter_len(1, 0));
-  CHECK(h_nfilters(0) == 1 && h_nfilters(1) == 1 && h_filter_bits(0, 0) == STRICT && h_filter_bits(1, 0) == STRICT, "one exact group filter and one exact name filter");
-  /* documented shape  <group>, <name>)  with group and name free of ',' and ')' */
-  uint64_t l = t_len(rest), c = 0; while (c < l && rest[c] != ',') c++;
-  uint64_t p = c; while (p < l && rest[p] != ')') p++;
-  int comma_free_name = 1; for (uint64_t k = c + 1; k < p; k++) if (rest[k] == ',') comma_free_name = 0;
-  int group_has_paren = 0; for (uint64_t k = 0; k < c; k++) if (rest[k] == ')') group_has_paren = 1;
-  if (c >= 1 && c + 1 < l && rest[c + 1] == ' ' && p < l && p >= c + 3 && comma_free_name && !group_has_paren) {
-    int gs = h_filter_len(0, 0) == c; for (uint64_t k = 0; gs && k < c; k++) if (h_filter_char(0, 0, k) != rest[k]) gs = 0;
-    int ns = h_filter_len(1, 0) == p - c - 2; for (uint64_t k = 0; ns && k < p - c - 2; k++) if (h_filter_char(1, 0, k) != rest[c + 2 + k]) ns = 0;
-    CHECK(gs, "documented shape: the group is the text before the comma");
-    CHECK(ns, "documented shape: the name is the text between \", \" and \")\"");
+  /* documented shapes: number attached, number in the next argument, or no number */
+  /* the next argument, if any, is a plain number or clearly not one (empty, or another option) */
+  const int next_plain = AC == 2 || !a2[0] || digit_text(a2) || (a2[0] == '-' && !is_digit(a2[1]));
+  if (tail[0] ? digit_text(tail) : next_plain) {
+    const int has_next_number = !tail[0] && AC == 3 && digit_text(a2) && decimal(a2) != 0;
+    uint64_t value = tail[0] ? decimal(tail) : has_next_number ? decimal(a2) : 0;
+    if (KIND == K_REPEAT) {
+      e.repeat = value ? value : 2;                               /* twice if <#> is not specified */
+      if (tail[0] && !value) { /* -r0: the help text does not say */ } else { CHECK(ok == 1, "-r accepted"); compare(&e); CHECK(h_index() == 1 + has_next_number, "a number in the next argument is consumed"); }
+    } else {
+      if (tail[0] && !value) CHECK(ok == 0, "a seed must be greater than 0");
+      else { e.flag[F_SHUFFLE] = 1; e.seed_known = value != 0; e.seed = value; CHECK(ok == 1, "-s accepted"); compare(&e); CHECK(h_index() == 1 + has_next_number, "a seed in the next argument is consumed"); }
+    }
     WITNESS("documented shape");
   }
   WITNESS("end");
 }
-/* group.name splitting on arbitrary bytes */
-HARNESS(harness_group_dot_name) {
+/* -o{normal|eclipse|junit|teamcity} and -k <packageName> */
+static void body_harness_handler_output(const int AC) {
   h_init();
-  IN_ARR_U8(val, KMAX + 1); IN_BOOL(strict); IN_BOOL(exclude); val[KMAX] = 0;
-  uint8_t a1[16]; a1[0] = 0; catlit(a1, "-t"); cat(a1, val);
+  IN_ARR_U8(tail, 9); IN_ARR_U8(a2, 9);
+  tail[8] = 0; a2[8] = 0;
+  TEXT(a1); catlit(a1, "-o"); cat(a1, tail);
+  uint32_t ok = h_handler(K_OUTPUT, AC, a1, a2, 0, 0);
+  OBSERVE(ok); OBSERVE(h_index());
+  int consumed; const uint8_t* v = ref_value(tail, a2, AC, &consumed);
+  struct expect e; defaults(&e);
+  int known = 1;
+  if (t_is(v, "normal") || t_is(v, "eclipse")) e.flag[F_ECLIPSE] = 1;
+  else if (t_is(v, "junit")) { e.flag[F_ECLIPSE] = 0; e.flag[F_JUNIT] = 1; }
+  else if (t_is(v, "teamcity")) { e.flag[F_ECLIPSE] = 0; e.flag[F_TEAMCITY] = 1; }
+  else known = 0;
+  CHECK((ok != 0) == known, "exactly the four documented output kinds are accepted");
+  CHECK(h_index() == 1 + consumed, "the next argument is consumed iff the kind is not attached");
+  compare(&e);                                                     /* an unknown kind leaves the default */
+  if (known) WITNESS("documented shape");
+  WITNESS("end");
+}
+static void body_harness_handler_package(const int AC) {
+  h_init();
+  IN_ARR_U8(tail, TAILMAX + 1); IN_ARR_U8(a2, 3);
+  tail[TAILMAX] = 0; a2[2] = 0;
+  TEXT(a1); catlit(a1, "-k"); cat(a1, tail);
+  uint32_t ok = h_handler(K_PACKAGE, AC, a1, a2, 0, 0);
+  OBSERVE(ok); OBSERVE(h_index());
+  int consumed; const uint8_t* v = ref_value(tail, a2, AC, &consumed);
+  struct expect e; defaults(&e); cat(e.package, v);
+  CHECK(h_index() == 1 + consumed, "the next argument is consumed iff the name is not attached");
+  compare(&e);
+  WITNESS("end");
+}
+/* -t -st -xt -xst <group>.<name> on arbitrary bytes */
+#ifndef DMAX
+#define DMAX 3
+#endif
+static void body_harness_handler_dotted(const int KIND, const int SHAPE) {   /* SHAPE 0: any 1..2 bytes; 1: any byte, a dot, any byte or nothing */
+  static const uint32_t bitsof[] = { 0, STRICT, INVERT, STRICT | INVERT };
+  h_init();
+  IN_ARR_U8(val, DMAX + 1); PROBE(); val[DMAX] = 0;
+  if (SHAPE == 0) val[2] = 0; else val[1] = '.';
+  TEXT(a1); catlit(a1, kname[KIND]); cat(a1, val);
   ASSUME(val[0] != 0);                       /* an empty value would take the next argument (covered by harness_param_field) */
-  uint32_t ok = h_group_dot_name(a1, strict, exclude);
-  OBSERVE(ok); OBSERVE(h_nfilters(0));
+  uint32_t ok = h_handler(KIND, 2, a1, 0, pg, pn);
+  OBSERVE(ok); OBSERVE(h_nfilters(0)); OBSERVE(h_probe_runs());
+  const uint32_t bits = bitsof[KIND - K_T];
   uint64_t l = t_len(val), dots = 0, first = l;
-  for (uint64_t k = 0; k < l; k++) if (val[k] == '.') { if (first == l) first = k; dots++; }
+  for (uint64_t k = 0; k < DMAX; k++) if (k < l && val[k] == '.') { if (first == l) first = k; dots++; }
   if (dots == 1 && first + 1 < l) CHECK(ok == 1, "<group>.<name> with a single dot is accepted");
   if (dots == 0) CHECK(ok == 0, "a value without a dot is rejected");
   if (ok) {
-    uint32_t bits = (strict ? STRICT : 0) | (exclude ? INVERT : 0);
-    CHECK(h_nfilters(0) == 1 && h_nfilters(1) == 1 && h_filter_bits(0, 0) == bits && h_filter_bits(1, 0) == bits, "one group and one name filter of the requested kind");
-    int gs = h_filter_len(0, 0) == first; for (uint64_t k = 0; gs && k < first; k++) if (h_filter_char(0, 0, k) != val[k]) gs = 0;
-    int ns = h_filter_len(1, 0) == l - first - 1; for (uint64_t k = 0; ns && k < l - first - 1; k++) if (h_filter_char(1, 0, k) != val[first + 1 + k]) ns = 0;
-    CHECK(gs, "the group is the text before the dot");
-    CHECK(ns, "the name is the text after the dot");
+    TEXT(g); TEXT(n);
+    for (uint64_t k = 0; k < DMAX; k++) { if (k < first) g[k] = val[k]; if (first + 1 + k < l) n[k] = val[first + 1 + k]; }
+    struct expect e; defaults(&e); add_filter(&e, 0, g, bits); add_filter(&e, 1, n, bits);
+    compare(&e);                                                   /* the group is the text before the dot, the name the text after it */
+    int gm = (bits & STRICT) ? t_eq(pg, g) : t_contains(pg, g);
+    int nm = (bits & STRICT) ? t_eq(pn, n) : t_contains(pn, n);
+#ifdef KF_C12_1
+    if (bits & INVERT) ASSUME(gm == nm);   /* open finding: -xt/-xst also exclude tests of which only the group or only the name matches */
+#endif
+    int runs = (bits & INVERT) ? !(gm && nm) : (gm && nm);         /* "group AND name contain/match": run only those / exclude those */
+    CHECK((h_probe_runs() != 0) == runs, "a test is selected iff its group and name both contain (exactly match) the values; with x exactly those tests are excluded");
+    WITNESS("accepted");
   } else CHECK(h_nfilters(0) == 0 && h_nfilters(1) == 0, "a rejected value adds no filter");
   WITNESS("end");
 }
-/* numbers of -r / -s with more digits */
-HARNESS(harness_numbers_long) {
+/* "TEST(group, name)" / "IGNORE_TEST(group, name)" on arbitrary bytes; for the documented shape the group and name come out */
+#ifndef KMAX
+#define KMAX 6
+#endif
+static void body_harness_handler_testform(const int IGNORE) {
   h_init();
-  IN_ARR_U8(d, 5); IN_BOOL(shuffle); IN_BOOL(separated); d[4] = 0;
-  ASSUME(is_digit(d[0])); for (int k = 1; k < 4; k++) ASSUME(d[k] == 0 || (is_digit(d[k]) && d[k - 1] != 0));
-  uint64_t value = 0; for (int k = 0; k < 4 && d[k]; k++) value = value * 10 + (uint64_t)(d[k] - '0');
-  ASSUME(value != 0);
-  uint8_t a1[8]; a1[0] = 0; catlit(a1, shuffle ? "-s" : "-r");
-  if (!separated) cat(a1, d);
-  uint32_t ok = h_parse(separated ? 3 : 2, a1, separated ? &d[0] : (uint8_t*)0, 0, 0, 0);
-  OBSERVE(ok); OBSERVE(h_repeat()); OBSERVE(h_seed());
-  CHECK(ok == 1, "accepted");
-  if (shuffle) CHECK(h_flag(F_SHUFFLE) && h_seed() == value && h_repeat() == 1, "the seed is the decimal value given");
-  else CHECK(!h_flag(F_SHUFFLE) && h_repeat() == value, "the repeat count is the decimal value given");
+  IN_ARR_U8(rest, KMAX + 1); PROBE(); rest[KMAX] = 0;
+  TEXT(a1); catlit(a1, IGNORE ? "IGNORE_TEST(" : "TEST("); cat(a1, rest);
+  ASSUME(rest[0] != 0);                      /* an empty rest would take the next argument (covered by harness_param_field) */
+  h_handler(IGNORE ? K_IGNORE_TEST : K_TEST, 2, a1, 0, pg, pn);
+  OBSERVE(h_nfilters(0)); OBSERVE(h_filter_len(0, 0)); OBSERVE(h_filter_len(1, 0)); OBSERVE(h_probe_runs());
+  CHECK(h_index() == 1 && h_nfilters(0) == 1 && h_nfilters(1) == 1 && h_filter_bits(0, 0) == STRICT && h_filter_bits(1, 0) == STRICT, "one exact group filter and one exact name filter");
+  /* documented shape  <group>, <name>)  with group and name free of ',' and ')' */
+  uint64_t l = t_len(rest), c = 0, p;
+  while (c < KMAX && c < l && rest[c] != ',') c++;
+  p = c; while (p < KMAX && p < l && rest[p] != ')') p++;
+  int comma_free_name = 1, group_has_paren = 0;
+  for (uint64_t k = 0; k < KMAX; k++) { if (k > c && k < p && rest[k] == ',') comma_free_name = 0; if (k < c && rest[k] == ')') group_has_paren = 1; }
+  if (c >= 1 && c + 1 < l && rest[c + 1] == ' ' && p < l && p >= c + 3 && comma_free_name && !group_has_paren) {
+    TEXT(g); TEXT(n);
+    for (uint64_t k = 0; k < KMAX; k++) { if (k < c) g[k] = rest[k]; if (c + 2 + k < p) n[k] = rest[c + 2 + k]; }
+    struct expect e; defaults(&e); add_filter(&e, 0, g, STRICT); add_filter(&e, 1, n, STRICT);
+    compare(&e);                                                   /* the group is the text before the comma, the name the text between ", " and ")" */
+    CHECK((h_probe_runs() != 0) == (t_eq(pg, g) && t_eq(pn, n)), "exactly the named test is selected");
+    WITNESS("documented shape");
+  }
+  WITNESS("end");
+}
+/* getParameterField: the value is what follows the option name in the same argument, else the next argument, else nothing */
+static void body_harness_param_field(const int NK, const int AC) {
+  static const char* const names[] = { "-g", "-sg", "-xsg", "TEST(", "IGNORE_TEST(" };
+  h_init();
+  IN_ARR_U8(tail, KMAX + 1); IN_ARR_U8(a2, 3); IN_U32(cut);
+  tail[KMAX] = 0; a2[2] = 0;
+  const uint8_t* name = (const uint8_t*)names[NK];
+  /* the argument: the option's name, possibly cut short, followed by arbitrary bytes */
+  TEXT(a1); catlit(a1, names[NK]);
+  uint64_t ln = t_len(name);
+  ASSUME(cut <= 1); if (cut) { a1[ln - 1] = 0; ASSUME(tail[0] == 0); }
+  cat(a1, tail);
+  uint32_t idx = h_param_field(AC, a1, a2, (uint8_t*)name);
+  OBSERVE(idx); OBSERVE(h_field_len());
+  uint64_t la = t_len(a1);
+  int same; uint32_t widx = 1;
+  if (la > ln) { same = h_field_len() == la - ln; for (uint64_t k = 0; k < KMAX; k++) { if (ln + k >= la) break; if (h_field_char(k) != a1[ln + k]) same = 0; } }
+  else if (AC == 3) { widx = 2; same = h_field_len() == t_len(a2); for (uint64_t k = 0; k < 2; k++) { if (!a2[k]) break; if (h_field_char(k) != a2[k]) same = 0; } }
+  else same = h_field_len() == 0;
+  CHECK(idx == widx, "the next argument is consumed only when the value is not attached");
+  CHECK(same, "the value is the rest of the argument, else the next argument, else empty");
   WITNESS("end");
 }
 /* TestFilter::match */
@@ -338,6 +399,75 @@ HARNESS(harness_filter_match) {
   WITNESS("end");
 }
 
+/* ---------------------------------------------------------------- the whole parser, end to end, on representative values
+ * (concrete texts: the symbolic executor then runs exactly the path a user gets; form, order and the probe test stay symbolic) */
+#define PARSE_EITHER(ok, separated, opt, val, g, n) do { \
+    TEXT(att_); cat(att_, opt); cat(att_, val); \
+    if (separated) ok = h_parse(3, opt, val, 0, g, n); else ok = h_parse(2, att_, 0, 0, g, n); } while (0)
+static void body_harness_flag(const int KIND) {
+  static const char* const opt[] = { "-h", "-v", "-vv", "-c", "-p", "-b", "-lg", "-ln", "-ll", "-ri", "-f", "-e", "-ci" };
+  static const int flag[] = { F_HELP, F_VERBOSE, F_VERYVERBOSE, F_COLOR, F_SEPARATE, F_REVERSE, F_LISTGROUPS, F_LISTNAMES, F_LISTLOCATIONS, F_RUNIGNORED, F_CRASH, F_RETHROW, F_RETHROW };
+  h_init(); PROBE();
+  struct expect e; defaults(&e);
+  e.flag[flag[KIND]] = (flag[KIND] == F_RETHROW) ? 0 : 1;
+  uint32_t ok = h_parse(2, (uint8_t*)opt[KIND], 0, 0, pg, pn);
+  OBSERVE(ok);
+  if (KIND == 0) { CHECK(ok == 0 && h_flag(F_HELP), "-h: help is wanted and the vector rejected (no test runs)"); }
+  else { CHECK(ok == 1, "documented option accepted"); compare(&e); CHECK(h_probe_runs() != 0, "no filter option: every test is selected"); }
+  WITNESS("end");
+}
+/* every valued option with a representative value, attached or separated, alone or together with a flag in either order */
+static void body_harness_e2e(const int KIND) {
+  static const char* const value[] = { "12", "7", "aB", "aB", "aB", "aB", "aB", "aB", "aB", "aB", "aB.c_", "aB.c_", "aB.c_", "aB.c_", "aB, c_)", "aB, c_)", "junit", "pk" };
+  static const uint32_t bits[] = { 0, STRICT, INVERT, STRICT | INVERT };
+  h_init(); PROBE(); IN_BOOL(separated); IN_BOOL(withFlag); IN_BOOL(flagFirst); IN_U64(now);
+  env_now_millis = now;
+  TEXT(o); catlit(o, kname[KIND]); TEXT(v); catlit(v, value[KIND]);
+  TEXT(att); cat(att, o); cat(att, v);
+  const int separable = KIND != K_TEST && KIND != K_IGNORE_TEST;        /* the TEST(...) forms are one (quoted) argument */
+  uint32_t ok;
+  if (!withFlag) { if (separable && separated) ok = h_parse(3, o, v, 0, pg, pn); else ok = h_parse(2, att, 0, 0, pg, pn); }
+  else if (separable && separated) { if (flagFirst) ok = h_parse(4, (uint8_t*)"-v", o, v, pg, pn); else ok = h_parse(4, o, v, (uint8_t*)"-v", pg, pn); }
+  else { if (flagFirst) ok = h_parse(3, (uint8_t*)"-v", att, 0, pg, pn); else ok = h_parse(3, att, (uint8_t*)"-v", 0, pg, pn); }
+  OBSERVE(ok); OBSERVE(h_probe_runs());
+  struct expect e; defaults(&e);
+  if (withFlag) e.flag[F_VERBOSE] = 1;
+  int runs = 1;
+  const uint8_t* G = (const uint8_t*)"aB"; const uint8_t* N = (const uint8_t*)"c_";
+  if (KIND == K_REPEAT) e.repeat = 12;
+  else if (KIND == K_SHUFFLE) { e.flag[F_SHUFFLE] = 1; e.seed_known = 1; e.seed = 7; }
+  else if (KIND >= K_G && KIND <= K_XSN) {
+    const int which = (KIND - K_G) / 4; const uint32_t b = bits[(KIND - K_G) % 4];
+    add_filter(&e, which, G, b);
+    int m = (b & STRICT) ? t_eq(which ? pn : pg, G) : t_contains(which ? pn : pg, G);
+    runs = (b & INVERT) ? !m : m;
+  } else if (KIND >= K_T && KIND <= K_IGNORE_TEST) {
+    const uint32_t b = KIND >= K_TEST ? STRICT : bits[KIND - K_T];
+    add_filter(&e, 0, G, b); add_filter(&e, 1, N, b);
+    int gm = (b & STRICT) ? t_eq(pg, G) : t_contains(pg, G), nm = (b & STRICT) ? t_eq(pn, N) : t_contains(pn, N);
+#ifdef KF_C12_1
+    if (b & INVERT) ASSUME(gm == nm);
+#endif
+    runs = (b & INVERT) ? !(gm && nm) : (gm && nm);
+  } else if (KIND == K_OUTPUT) { e.flag[F_ECLIPSE] = 0; e.flag[F_JUNIT] = 1; }
+  else cat(e.package, (const uint8_t*)"pk");
+  CHECK(ok == 1, "documented options accepted in either form and order"); compare(&e);
+  CHECK((h_probe_runs() != 0) == runs, "the tests selected are the documented ones");
+  WITNESS("end");
+}
+/* the options that may come without a value, followed by another option: nothing of the next option is swallowed */
+static void body_harness_e2e_bare(const int SHUFFLE) {
+  h_init(); IN_BOOL(flagFirst); IN_U64(now);
+  env_now_millis = now;
+  uint32_t ok;
+  if (flagFirst) ok = h_parse(3, (uint8_t*)"-c", (uint8_t*)(SHUFFLE ? "-s" : "-r"), 0, 0, 0); else ok = h_parse(3, (uint8_t*)(SHUFFLE ? "-s" : "-r"), (uint8_t*)"-c", 0, 0, 0);
+  struct expect e; defaults(&e); e.flag[F_COLOR] = 1;
+  if (SHUFFLE) e.flag[F_SHUFFLE] = 1; else e.repeat = 2;
+  OBSERVE(ok); OBSERVE(h_seed());
+  CHECK(ok == 1, "accepted"); compare(&e);
+  WITNESS("end");
+}
+
 /* ---------------------------------------------------------------- open finding KF_C12_1 (not part of spec.py: FAILS)
  * help: "-xt <grp>.<name> - exclude tests whose group and name contain <grp> and <name>"; the parser adds an inverted
  * group filter AND an inverted name filter, so a test of which only the group (or only the name) matches is excluded too. */
@@ -348,16 +478,31 @@ HARNESS(finding_exclude_dotted) {
   CHECK(h_probe_runs() != 0, "-xt G.a must not exclude TEST(G, b)");
   WITNESS("end");
 }
+/* second observation (no obligation covers two filters of one kind, so nothing is guarded): help: "-xg <group> - exclude tests
+ * whose group contains <group>"; given twice, a test is run as soon as ONE of the exclusions does not apply to it. */
+HARNESS(finding_two_excludes) {
+  h_init();
+  uint32_t ok = h_parse(3, (uint8_t*)"-xgA", (uint8_t*)"-xgB", 0, (uint8_t*)"A", (uint8_t*)"t");  /* group A is excluded by the first option */
+  CHECK(ok == 1, "accepted");
+  CHECK(h_probe_runs() == 0, "-xg A -xg B must exclude the tests of group A");
+  WITNESS("end");
+}
 
 #define K1(f, k) HARNESS(f##_##k) { body_##f(k); }
-K1(harness_safety_prefixed, 0) K1(harness_safety_prefixed, 1) K1(harness_safety_prefixed, 2) K1(harness_safety_prefixed, 3) K1(harness_safety_prefixed, 4) K1(harness_safety_prefixed, 5)
-K1(harness_safety_prefixed, 6) K1(harness_safety_prefixed, 7) K1(harness_safety_prefixed, 8) K1(harness_safety_prefixed, 9) K1(harness_safety_prefixed, 10) K1(harness_safety_prefixed, 11)
-K1(harness_safety_prefixed, 12) K1(harness_safety_prefixed, 13) K1(harness_safety_prefixed, 14) K1(harness_safety_prefixed, 15) K1(harness_safety_prefixed, 16) K1(harness_safety_prefixed, 17) K1(harness_safety_prefixed, 18)
+#define K2(f, k, c) HARNESS(f##_##k##_##c) { body_##f(k, c); }
+K1(harness_dispatch, 0) K1(harness_dispatch, 1) K1(harness_dispatch, 2) K1(harness_dispatch, 3)
+K1(harness_dispatch_near, 0) K1(harness_dispatch_near, 1) K1(harness_dispatch_near, 2) K1(harness_dispatch_near, 3) K1(harness_dispatch_near, 4) K1(harness_dispatch_near, 5) K1(harness_dispatch_near, 6) K1(harness_dispatch_near, 7) K1(harness_dispatch_near, 8)
+K1(harness_dispatch_near, 9) K1(harness_dispatch_near, 10) K1(harness_dispatch_near, 11) K1(harness_dispatch_near, 12) K1(harness_dispatch_near, 13) K1(harness_dispatch_near, 14) K1(harness_dispatch_near, 15) K1(harness_dispatch_near, 16) K1(harness_dispatch_near, 17)
+K2(harness_handler_filter, 2, 2) K2(harness_handler_filter, 3, 2) K2(harness_handler_filter, 4, 2) K2(harness_handler_filter, 5, 2) K2(harness_handler_filter, 6, 2) K2(harness_handler_filter, 7, 2) K2(harness_handler_filter, 8, 2) K2(harness_handler_filter, 9, 2)
+K2(harness_handler_filter, 2, 3) K2(harness_handler_filter, 3, 3) K2(harness_handler_filter, 4, 3) K2(harness_handler_filter, 5, 3) K2(harness_handler_filter, 6, 3) K2(harness_handler_filter, 7, 3) K2(harness_handler_filter, 8, 3) K2(harness_handler_filter, 9, 3)
+K2(harness_handler_number, 0, 2) K2(harness_handler_number, 0, 3) K2(harness_handler_number, 1, 2) K2(harness_handler_number, 1, 3)
+K1(harness_handler_output, 2) K1(harness_handler_output, 3) K1(harness_handler_package, 2) K1(harness_handler_package, 3)
+K2(harness_handler_dotted, 10, 0) K2(harness_handler_dotted, 11, 0) K2(harness_handler_dotted, 12, 0) K2(harness_handler_dotted, 13, 0) K2(harness_handler_dotted, 10, 1) K2(harness_handler_dotted, 11, 1) K2(harness_handler_dotted, 12, 1) K2(harness_handler_dotted, 13, 1)
+K1(harness_handler_testform, 0) K1(harness_handler_testform, 1)
+K2(harness_param_field, 0, 2) K2(harness_param_field, 0, 3) K2(harness_param_field, 1, 2) K2(harness_param_field, 1, 3) K2(harness_param_field, 2, 2) K2(harness_param_field, 2, 3)
+K2(harness_param_field, 3, 2) K2(harness_param_field, 3, 3) K2(harness_param_field, 4, 2) K2(harness_param_field, 4, 3)
 K1(harness_flag, 0) K1(harness_flag, 1) K1(harness_flag, 2) K1(harness_flag, 3) K1(harness_flag, 4) K1(harness_flag, 5) K1(harness_flag, 6)
 K1(harness_flag, 7) K1(harness_flag, 8) K1(harness_flag, 9) K1(harness_flag, 10) K1(harness_flag, 11) K1(harness_flag, 12)
-K1(harness_number, 0) K1(harness_number, 1) K1(harness_number, 2) K1(harness_number, 3)
-K1(harness_filter, 0) K1(harness_filter, 1) K1(harness_filter, 2) K1(harness_filter, 3) K1(harness_filter, 4) K1(harness_filter, 5) K1(harness_filter, 6) K1(harness_filter, 7)
-K1(harness_dotted, 0) K1(harness_dotted, 1) K1(harness_dotted, 2) K1(harness_dotted, 3)
-K1(harness_testform, 0) K1(harness_testform, 1)
-K1(harness_output, 0) K1(harness_output, 1) K1(harness_output, 2) K1(harness_output, 3) K1(harness_output, 4)
-K1(harness_pair, 0) K1(harness_pair, 1) K1(harness_pair, 2) K1(harness_pair, 3) K1(harness_pair, 4) K1(harness_pair, 5) K1(harness_pair, 6)
+K1(harness_e2e, 0) K1(harness_e2e, 1) K1(harness_e2e, 2) K1(harness_e2e, 3) K1(harness_e2e, 4) K1(harness_e2e, 5) K1(harness_e2e, 6) K1(harness_e2e, 7) K1(harness_e2e, 8)
+K1(harness_e2e, 9) K1(harness_e2e, 10) K1(harness_e2e, 11) K1(harness_e2e, 12) K1(harness_e2e, 13) K1(harness_e2e, 14) K1(harness_e2e, 15) K1(harness_e2e, 16) K1(harness_e2e, 17)
+K1(harness_e2e_bare, 0) K1(harness_e2e_bare, 1)
